@@ -24,7 +24,7 @@ def strategies():
 def fault_sets(n, pairs):
     out = []
     for i in range(n):
-        for pos in ("pre", "post", "stoppre"):
+        for pos in ("pre", "post", "stoppre", "prebase"):
             out.append({i: pos})
     if pairs:
         for i, j in itertools.combinations(range(n), 2):
@@ -45,7 +45,7 @@ def plan(prog, faults, sname, driver, end, switch=None):
     pieces, exps = [], []
 
     def run_piece(piece):
-        for _ in range(12):
+        for _ in range(12 + len(prog)):
             e = ref.cmd(piece)
             pieces.append(piece)
             exps.append(e)
@@ -60,7 +60,7 @@ def plan(prog, faults, sname, driver, end, switch=None):
         run_piece(("start",))
     elif driver == "step":
         # step until nothing executable is left, then finish with start
-        for _ in range(20):
+        for _ in range(20 + len(prog)):
             nxt = ref.ref.peek()
             if nxt is None or nxt[0] > end:
                 break
@@ -160,10 +160,15 @@ def worker(task):
             idx += 1
             if idx % nchunks != chunk:
                 continue
+            if sum(cnt.values()) > 150:
+                continue     # this slice has reported plenty already
             prog = progmc.build(parents, labs, 0)
             for faults in fault_sets(k, pairs):
                 for rawmode in rawmodes:
                     raw = set(faults) if rawmode else set()
+                    if rawmode and "prebase" in faults.values():
+                        continue   # (a user event class that lets a
+                        # non-Exception through is the user's business)
                     for sname in ("LOG_AND_CONTINUE", "WARN_AND_CONTINUE",
                                   "WARN_AND_PAUSE"):
                         for driver in ("start", "bounded", "step"):
@@ -207,6 +212,45 @@ def worker(task):
                 viols=[v + (cnt[v[0]],) for v in best.values()])
 
 
+def many_worker(task):
+    """many failing events in ONE replication (bursts, chains and ladders of
+    k events; all of them failing, every second, every third one): nothing
+    may change with the number of failures seen so far"""
+    clock, k = task
+    coopsched.install()
+    n = 0
+    best, cnt = {}, {}
+    for name, prog, end in progmc.burst_programs(k):
+        if name.startswith("strata"):
+            continue
+        nev = len(prog) - 1
+        plans = [("all", {i: "post" for i in range(nev)}),
+                 ("odd", {i: ("post", "pre")[i % 4 == 1]
+                          for i in range(nev) if i % 2}),
+                 ("third", {i: "post" for i in range(nev) if i % 3 == 2})]
+        for pname, faults in plans:
+            if not faults:
+                continue
+            for sname in ("LOG_AND_CONTINUE", "WARN_AND_CONTINUE",
+                          "WARN_AND_PAUSE"):
+                for driver in ("start", "step"):
+                    case = (prog, clock, faults, sname, driver, set(), end)
+                    n += 1
+                    bad = judge(case)
+                    for b in bad[:1]:
+                        sig = "C05:many:%s:%s:%s" % (sname, driver, b[0])
+                        cnt[sig] = cnt.get(sig, 0) + 1
+                        if sig not in best or k < best[sig][3]:
+                            best[sig] = (sig, "%s of %d events, failing: %s "
+                                         "(%d), %s, driver %s, %s clock: %s"
+                                         % (name, k, pname, len(faults),
+                                            sname, driver, clock,
+                                            str(b)[:300]),
+                                         case_json(case), k)
+    return dict(n=n, nontrivial=n, sample=None,
+                viols=[v + (cnt[v[0]],) for v in best.values()])
+
+
 def run(ctx):
     quick = ctx.tier == "quick"
     N = 3
@@ -221,7 +265,13 @@ def run(ctx):
         tasks += [(4, i, nchunks * 4, False, ("float",), (False,))
                   for i in range(nchunks * 4)]
     total = nontriv = 0
-    for r in common.pimap(worker, tasks):
+    ks = [1, 2, 3, 5, 8, 9, 15, 16, 17, 18, 24, 25, 31, 32, 33, 34, 40] \
+        if quick else list(range(1, 49)) + [64, 65]
+    mtasks = [(c, k) for k in reversed(ks)
+              for c in (("float",) if quick else ("float", "int",
+                                                    "duration"))]
+    for r in itertools.chain(common.pimap(worker, tasks),
+                             common.pimap(many_worker, mtasks)):
         total += r["n"]
         nontriv += r["nontrivial"]
         if r["sample"]:
@@ -238,7 +288,11 @@ def run(ctx):
         "{LOG_AND_CONTINUE, WARN_AND_CONTINUE, WARN_AND_PAUSE} x driver "
         "{start, run_up_to(1)+run_up_to_including(2)+start, step until "
         "drained + start}; under PAUSE every run piece that stopped after a "
-        "failing event is re-issued (resume). After every command: outcome, "
+        "failing event is re-issued (resume). Plus many failures in one "
+        "replication: bursts, chains, fans and ladders of k<=40 (thorough 65) "
+        "events of which all / every second / every third fail, x strategy x "
+        "{start, step}. Plus handlers that raise a BaseException that is not "
+        "an Exception. After every command: outcome, "
         "executed trace, clock, (run_state, replication_state) vs reference. "
         "Cases are distinct by construction; non-trivial = >=2 events.")
     ctx.assumptions += [
